@@ -139,7 +139,9 @@ static void c03_gen(Rng &rng, Plan &plan, bool thorough)
 	gen_sched_params(rng, plan, thorough);
 	plan.setp("synth_seed", (int64_t)(rng.next() >> 2));
 	plan.setp("what", (int64_t)rng.below(10));   // 0-6 .xz, 7-9 raw LZMA2
-	if (rng.chance(450)) gen_storage_faults(rng, plan, 2);
+	// streams that are wrong by construction: a distance that reaches just outside the dictionary
+	if (rng.chance(250)) plan.setp("synth_illegal", rng.chance(500) ? 1000 : 150);
+	else if (rng.chance(450)) gen_storage_faults(rng, plan, 2);
 	plan.setp("decoder", (int64_t)rng.below(10));
 	plan.setp("style", (int64_t)rng.below(4));
 	plan.setp("delivery_seed", (int64_t)(rng.next() >> 2));
@@ -149,6 +151,7 @@ static void c03_gen(Rng &rng, Plan &plan, bool thorough)
 static void c03_exec(const Plan &plan, Verdict &v)
 {
 	ref::SynthRng srng((uint64_t)plan.p("synth_seed", 1));
+	srng.illegal_permille = (unsigned)plan.p("synth_illegal", 0);
 	bool faulted = false;
 	for (auto &op : plan.ops) if (op.name == "sfault") faulted = true;
 	v.count("runs.total");
@@ -158,6 +161,7 @@ static void c03_exec(const Plan &plan, Verdict &v)
 		unsigned feat = 0;
 		uint32_t dict = (uint32_t)(1u << (12 + srng.below(8)));
 		Bytes file = ref::synth_lzma2(srng, dict, 1 + (size_t)srng.below(6), plain, &feat);
+		if (srng.illegal_emitted) { faulted = true; v.count("fault.illegal_distance_symbol", srng.illegal_emitted); }
 		for (auto &op : plan.ops) if (op.name == "sfault") apply_one_fault(op, file, &v);
 		ref::Lzma2Result want = ref::decode_lzma2(file.data(), file.size(), dict);
 		lzma_options_lzma lz; lzma_lzma_preset(&lz, 0); lz.dict_size = dict;
@@ -181,6 +185,7 @@ static void c03_exec(const Plan &plan, Verdict &v)
 	}
 	SynthXz x;
 	synth_xz(srng, x, true);
+	if (srng.illegal_emitted) { faulted = true; v.count("fault.illegal_distance_symbol", srng.illegal_emitted); }
 	Bytes file = x.file;
 	for (auto &op : plan.ops) if (op.name == "sfault") apply_one_fault(op, file, &v);
 	ref::XzResult want = ref::parse_xz(file.data(), file.size(), true);
@@ -297,7 +302,8 @@ static void c16_gen(Rng &rng, Plan &plan, bool thorough)
 	plan.setp("synth_seed", (int64_t)(rng.next() >> 2));
 	plan.setp("fmt", (int64_t)rng.below(10));   // 0-3 .lzma, 4-6 .lz, 7-9 .xz concatenation/padding
 	plan.setp("variant", (int64_t)rng.below(1 << 20));
-	if (rng.chance(350)) gen_storage_faults(rng, plan, 2);
+	if (rng.chance(120)) plan.setp("synth_illegal", rng.chance(500) ? 1000 : 200);   // used by the .lzma and .lz forms
+	else if (rng.chance(350)) gen_storage_faults(rng, plan, 2);
 	plan.setp("style", (int64_t)rng.below(4));
 	plan.setp("delivery_seed", (int64_t)(rng.next() >> 2));
 	plan.setp("concatenated", (int64_t)rng.below(2));
@@ -308,6 +314,7 @@ static void c16_gen(Rng &rng, Plan &plan, bool thorough)
 static void c16_exec(const Plan &plan, Verdict &v)
 {
 	ref::SynthRng srng((uint64_t)plan.p("synth_seed", 1));
+	srng.illegal_permille = (unsigned)plan.p("synth_illegal", 0);
 	uint64_t var = (uint64_t)plan.p("variant");
 	int fmtk = (int)plan.p("fmt");
 	bool faulted = false;
@@ -328,6 +335,7 @@ static void c16_exec(const Plan &plan, Verdict &v)
 		Bytes plain;
 		unsigned feat = 0;
 		Bytes file = ref::synth_alone(srng, lc, lp, pb, dict, known, eopm, 1 + (size_t)srng.below(2000), plain, &feat);
+		if (srng.illegal_emitted) { faulted = true; v.count("fault.illegal_distance_symbol", srng.illegal_emitted); }
 		size_t stream_end = file.size();
 		int tail = (int)plan.p("tail");
 		if (tail >= 5) for (int i = 0; i < tail - 4; ++i) file.push_back((uint8_t)srng.next());   // something after the stream
@@ -392,6 +400,7 @@ static void c16_exec(const Plan &plan, Verdict &v)
 			synth_lz_member(srng, (int)((var >> m) & 1), code, 1 + (size_t)srng.below(1500), file, plain, &feat);
 			ends.push_back(file.size());
 		}
+		if (srng.illegal_emitted) { faulted = true; v.count("fault.illegal_distance_symbol", srng.illegal_emitted); }
 		int tail = (int)plan.p("tail");
 		size_t members_end = file.size();
 		if (tail > 0) {
